@@ -47,6 +47,7 @@ var parserWorkReceiveChannel = func() chan<- jobIn {
 		getWorkLoop:
 			for job := range inChan {
 				outJobs := make([]jobOutRecord, len(job.lines))
+			parseLineLoop:
 				for i := range outJobs {
 					out := &outJobs[i]
 					out.line = job.lines[i]
@@ -64,8 +65,13 @@ var parserWorkReceiveChannel = func() chan<- jobIn {
 					}
 
 					values := make([]octosql.Value, len(job.fields))
-					for i := range values {
-						values[i], _ = getOctoSQLValue(job.fields[i].Type, o.Get(job.fields[i].Name))
+					for j := range values {
+						value, ok := getOctoSQLValue(job.fields[j].Type, o.Get(job.fields[j].Name))
+						if !ok {
+							out.err = fmt.Errorf("value of field '%s' doesn't match the field type %s: '%s'", job.fields[j].Name, job.fields[j].Type, string(job.data[i]))
+							continue parseLineLoop
+						}
+						values[j] = value
 					}
 
 					out.record = NewRecord(values, false, time.Time{})
